@@ -134,6 +134,17 @@ def run_impl(cases):
 
         def go():
             from simple_parsing import ArgumentParser
+            # every case first defines and parses an identical set of classes in ANOTHER namespace: same qualified names,
+            # different class objects.  A cache keyed on names instead of classes (seeded change C02-04) then shows up inside
+            # the case itself, so the replay of a failing case is self-contained.
+            shadow = {}
+            exec(compile(source(case), "<c02>", "exec", dont_inherit=True), shadow)
+            try:
+                ps = ArgumentParser()
+                ps.add_arguments(shadow["D"], "d")
+                ps.parse_args(argv)
+            except BaseException:  # noqa: BLE001  (the judged run below reports the outcome)
+                pass
             ns = {}
             exec(compile(source(case), "<c02>", "exec", dont_inherit=True), ns)
             set_current_ns(ns)
